@@ -31,6 +31,17 @@ type CallPoint struct {
 	Label string `json:"label"` // point label
 }
 
+// SharedMap names a map-typed field (matched by selector name within a package)
+// whose reads, writes and deletes are routed through vsched.MapRead*/MapWrite/
+// MapDelete, which open an access window around the operation so that the
+// explorer can detect two goroutines inside conflicting windows (a data race on
+// the map, which the Go runtime reports as a fatal "concurrent map" error).
+type SharedMap struct {
+	Pkg      string `json:"pkg"`
+	Selector string `json:"selector"`
+	Loc      string `json:"loc"`
+}
+
 type CallRepl struct {
 	Pkg  string `json:"pkg"`
 	Call string `json:"call"` // e.g. "net.Dial"
@@ -47,6 +58,7 @@ type Config struct {
 	ImportRepl map[string]string `json:"import_replace"` // import path -> replacement path (per all rewritten files)
 	CopyPkgs   map[string]string `json:"copy_pkgs"`      // virtual import path -> source directory to copy+rewrite (dependency sources)
 	TimeAfter  bool              `json:"time_after"`     // time.After -> vsched.After
+	SharedMaps []SharedMap       `json:"shared_maps"`    // map-typed struct fields whose accesses are modelled as non-atomic
 }
 
 const (
@@ -195,6 +207,32 @@ func (r *rewriter) isChan(e ast.Expr) bool {
 	return ok
 }
 
+func (r *rewriter) sharedMapLoc(e ast.Expr) string {
+	ix, ok := e.(*ast.IndexExpr)
+	var x ast.Expr
+	if ok {
+		x = ix.X
+	} else {
+		x = e
+	}
+	sel, ok := x.(*ast.SelectorExpr)
+	if !ok {
+		return ""
+	}
+	for _, sm := range r.cfg.SharedMaps {
+		if sm.Pkg == r.pkg.PkgPath && sm.Selector == sel.Sel.Name {
+			if t := r.pkg.TypesInfo.TypeOf(x); t != nil {
+				if _, isMap := t.Underlying().(*types.Map); isMap {
+					return sm.Loc
+				}
+			}
+		}
+	}
+	return ""
+}
+
+func strLit(s string) ast.Expr { return &ast.BasicLit{Kind: token.STRING, Value: strconv.Quote(s)} }
+
 func (r *rewriter) isBuiltin(id *ast.Ident, name string) bool {
 	if id.Name != name {
 		return false
@@ -257,7 +295,22 @@ func (r *rewriter) rewrite() bool {
 			}
 		}
 	}
+	mapWrite := map[ast.Node]bool{}
+	mapRead2 := map[ast.Node]bool{}
 	pre := func(c *astutil.Cursor) bool {
+		if as, ok := c.Node().(*ast.AssignStmt); ok && len(r.cfg.SharedMaps) > 0 {
+			if len(as.Lhs) == 1 && len(as.Rhs) == 1 && as.Tok == token.ASSIGN {
+				if _, isIx := as.Lhs[0].(*ast.IndexExpr); isIx && r.sharedMapLoc(as.Lhs[0]) != "" {
+					mapWrite[as] = true
+					r.skip[as.Lhs[0]] = true
+				}
+			}
+			if len(as.Lhs) == 2 && len(as.Rhs) == 1 {
+				if _, isIx := as.Rhs[0].(*ast.IndexExpr); isIx && r.sharedMapLoc(as.Rhs[0]) != "" {
+					mapRead2[as.Rhs[0]] = true
+				}
+			}
+		}
 		if sel, ok := c.Node().(*ast.SelectStmt); ok {
 			for _, cl := range sel.Body.List {
 				cc := cl.(*ast.CommClause)
@@ -292,7 +345,23 @@ func (r *rewriter) rewrite() bool {
 				c.Replace(&ast.CallExpr{Fun: r.vs("Recv"), Args: []ast.Expr{n.X}})
 				stats["recv"]++
 			}
+		case *ast.IndexExpr:
+			if loc := r.sharedMapLoc(n); loc != "" {
+				fn := "MapRead1"
+				if mapRead2[n] {
+					fn = "MapRead2"
+				}
+				c.Replace(&ast.CallExpr{Fun: r.vs(fn), Args: []ast.Expr{strLit(loc), n.X, n.Index}})
+				stats["shared-map-read"]++
+			}
 		case *ast.AssignStmt:
+			if mapWrite[n] {
+				ix := n.Lhs[0].(*ast.IndexExpr)
+				loc := r.sharedMapLoc(ix)
+				c.Replace(&ast.ExprStmt{X: &ast.CallExpr{Fun: r.vs("MapWrite"), Args: []ast.Expr{strLit(loc), ix.X, ix.Index, n.Rhs[0]}}})
+				stats["shared-map-write"]++
+				return true
+			}
 			if len(n.Lhs) == 2 && len(n.Rhs) == 1 {
 				r.fixRecv2(n.Rhs[0])
 			}
@@ -302,7 +371,12 @@ func (r *rewriter) rewrite() bool {
 			}
 		case *ast.CallExpr:
 			r.fileReads(n)
-			if id, ok := n.Fun.(*ast.Ident); ok && r.isBuiltin(id, "close") {
+			if id, ok := n.Fun.(*ast.Ident); ok && r.isBuiltin(id, "delete") && len(n.Args) == 2 && r.sharedMapLoc(n.Args[0]) != "" {
+				loc := r.sharedMapLoc(n.Args[0])
+				n.Fun = r.vs("MapDelete")
+				n.Args = []ast.Expr{strLit(loc), n.Args[0], n.Args[1]}
+				stats["shared-map-delete"]++
+			} else if id, ok := n.Fun.(*ast.Ident); ok && r.isBuiltin(id, "close") {
 				n.Fun = r.vs("Close")
 				stats["close"]++
 			} else if r.cfg.TimeAfter && r.isPkgFunc(n.Fun, "time", "After") {
